@@ -20,7 +20,7 @@ LEVEL_TEXT["C18"] = (
 
 PROPS["C18"] = {
     "gen": ["SmallFft", "Consts", "Cmplx"],
-    "lean_props": "DspVerif.Props.C18",
+    "lean_props": ["DspVerif.Props.C18", "DspVerif.Props.C18Total"],
     "harness": [{"src": "c18.cpp", "cfg": "rel",
                  "tol": {"plR": (1e-13, 0.0), "plC": (1e-13, 0.0), "gcc": (1e-12, 1e-9), "gccm": (1e-12, 1e-9), "det": (1e-11, 0.0)}}],
     "rule": "delayseq: every shift -N-2..N+2 for every N <= 9 (thorough 12), real and complex, + lengths 16..5000 with shifts 0, +-1, +-N/4, +-(N-1), +-N, +-(N+1), +-1e6, +-(2^31-1) and random; "
